@@ -73,13 +73,14 @@ class Kernel:
     """symbolic interpreter for one code slice"""
 
     def __init__(self, bindings: Dict[str, object], conds: Dict[str, bool], maps: Dict[str, str],
-                 symmetric_maps=("M",), skip_if_mentions=("iprint", "logger"), ignore_stores=()):
+                 symmetric_maps=("M",), skip_if_mentions=("iprint", "logger"), ignore_stores=(), recv_maps=None):
         self.bind = bindings          # normalised source -> value (checked before structural evaluation)
         self.conds = conds            # normalised test source -> outcome
         self.maps = maps              # callee dotted name -> linear map name:  {"bmv": "M"}
         self.sym = set(symmetric_maps)
         self.skip = skip_if_mentions
         self.ignore_stores = set(ignore_stores)
+        self.recv_maps = dict(recv_maps or {})     # source of a matrix receiver -> linear map name (A.dot(v))
         self.env: Dict[str, object] = {}
         self.unknown = set()
 
@@ -110,6 +111,10 @@ class Kernel:
             return Sc(-v.e) if isinstance(v, Sc) else vscale(v, -1)
         if isinstance(e, ast.UnaryOp) and isinstance(e.op, ast.UAdd):
             return self.ev(e.operand)
+        if isinstance(e, ast.BinOp) and isinstance(e.op, ast.MatMult) and src(e.left) in self.recv_maps:
+            v = self.ev(e.right)
+            if isinstance(v, Vec):
+                return Vec({f"{self.recv_maps[src(e.left)]}({k})": coef for k, coef in v.t.items()})
         if isinstance(e, ast.BinOp):
             a, b = self.ev(e.left), self.ev(e.right)
             op = type(e.op)
@@ -162,6 +167,12 @@ class Kernel:
 
     def call(self, c: ast.Call):
         d = dotted(c.func) or ""
+        if isinstance(c.func, ast.Attribute) and c.func.attr == "dot" and len(c.args) == 1 and src(c.func.value) in self.recv_maps:
+            v = self.ev(c.args[0])
+            m = self.recv_maps[src(c.func.value)]
+            if isinstance(v, Vec):
+                return Vec({f"{m}({k})": coef for k, coef in v.t.items()})
+            raise AnalysisError(f"symalg: matrix applied to a scalar in `{short(c)}`")
         if isinstance(c.func, ast.Attribute) and c.func.attr == "dot" and len(c.args) == 1 and not d.startswith("np."):
             a, b = self.ev(c.func.value), self.ev(c.args[0])
             if isinstance(a, Vec) and isinstance(b, Vec):
@@ -179,6 +190,11 @@ class Kernel:
             raise AnalysisError(f"symalg: linear map applied to a scalar in `{short(c)}`")
         if d in ("copy.copy", "copy.deepcopy", "copy", "deepcopy", "float", "np.float64", "np.copy") and len(c.args) == 1:
             return self.ev(c.args[0])
+        if d in ("max", "min") and len(c.args) > 2:
+            vs = [self.ev(a) for a in c.args]
+            if all(isinstance(v, Sc) for v in vs):
+                args = sorted({sp.expand(v.e) for v in vs}, key=sp.default_sort_key)
+                return Sc(sp.Function(d)(*args))
         if d in ("max", "min", "np.maximum", "np.minimum") and len(c.args) == 2:
             a, b = self.ev(c.args[0]), self.ev(c.args[1])
             if isinstance(a, Sc) and isinstance(b, Sc):
